@@ -44,11 +44,12 @@ func TestHarness(t *testing.T) {
 	fs := flag.NewFlagSet(mode, flag.ContinueOnError)
 	seed := fs.Int64("seed", 1, "PRNG seed")
 	tier := fs.String("tier", "quick", "quick|thorough")
-	only := fs.String("only", "", "pools: generate the constructor operations only")
+	only := fs.String("only", "", "pools: generate the constructor operations only; int: the integrated-allocator sequences only")
 	if err := fs.Parse(harnessArgs[1:]); err != nil {
 		t.Fatal(err)
 	}
 	OnlyPools = *only == "pools"
+	OnlyInt = *only == "int"
 	w := bufio.NewWriterSize(realStdout, 1<<20)
 	defer w.Flush()
 	c := comp{}
